@@ -260,17 +260,61 @@ func c18ExactFirst(w *World, r *Report) {
 		}
 		r.Fn(FuncName(fn))
 		g := FullGraph(fn)
-		// string equality between the requested version (a string parameter) and an element's version
+		// events of fn: the identical-string scan (a string equality between the requested version — a
+		// string parameter — and an element, written as a loop, as slices.Contains/Index, as a predicate
+		// handed to slices.IndexFunc/ContainsFunc, or inside a small helper) and the constraint scan
 		var eqs []ssa.Instruction
 		var checks []ssa.Instruction
+		hasParamEq := func(f *ssa.Function, params map[ssa.Value]bool) bool {
+			for _, b := range f.Blocks {
+				for _, in := range b.Instrs {
+					if x, ok := in.(*ssa.BinOp); ok && x.Op == token.EQL && isStringType(x.X.Type()) {
+						px, py := params[resolveToParam(x.X)] || params[x.X], params[resolveToParam(x.Y)] || params[x.Y]
+						if px != py {
+							other := x.Y
+							if py {
+								other = x.X
+							}
+							if _, isC := other.(*ssa.Const); !isC {
+								return true
+							}
+						}
+					}
+				}
+			}
+			return false
+		}
+		hasCheck := func(f *ssa.Function) bool {
+			for _, c := range callInstrs(f) {
+				if cf, _ := calleeOf(c.Common()); cf != nil && strings.HasSuffix(FuncName(cf), "semver/v3.Constraints).Check") {
+					return true
+				}
+			}
+			return false
+		}
+		fnParams := map[ssa.Value]bool{}
+		for _, p := range fn.Params {
+			if isStringType(p.Type()) {
+				fnParams[p] = true
+			}
+		}
+		closureOf := func(v ssa.Value) *ssa.Function {
+			switch x := v.(type) {
+			case *ssa.MakeClosure:
+				f, _ := x.Fn.(*ssa.Function)
+				return f
+			case *ssa.Function:
+				return x
+			}
+			return nil
+		}
 		for _, b := range fn.Blocks {
 			for _, in := range b.Instrs {
 				switch x := in.(type) {
 				case *ssa.BinOp:
-					if x.Op == token.EQL {
-						_, px := x.X.(*ssa.Parameter)
-						_, py := x.Y.(*ssa.Parameter)
-						if (px || py) && isStringType(x.X.Type()) {
+					if x.Op == token.EQL && isStringType(x.X.Type()) {
+						px, py := fnParams[x.X], fnParams[x.Y]
+						if px != py {
 							other := x.Y
 							if py {
 								other = x.X
@@ -281,8 +325,45 @@ func c18ExactFirst(w *World, r *Report) {
 						}
 					}
 				case *ssa.Call:
-					if f, _ := calleeOf(x.Common()); f != nil && strings.HasSuffix(FuncName(f), "semver/v3.Constraints).Check") {
+					f, _ := calleeOf(x.Common())
+					if f == nil {
+						continue
+					}
+					switch {
+					case strings.HasSuffix(FuncName(f), "semver/v3.Constraints).Check"):
 						checks = append(checks, x)
+					case fnPkgPath(f) == "slices" && (genericName(f) == "Contains" || genericName(f) == "Index"):
+						if len(x.Call.Args) == 2 && fnParams[x.Call.Args[1]] {
+							eqs = append(eqs, x)
+						}
+					case fnPkgPath(f) == "slices" && (genericName(f) == "IndexFunc" || genericName(f) == "ContainsFunc"):
+						if cl := closureOf(x.Call.Args[1]); cl != nil {
+							if hasParamEq(cl, fnParams) {
+								eqs = append(eqs, x)
+							}
+							if hasCheck(cl) {
+								checks = append(checks, x)
+							}
+						}
+					case inHelm(f) && len(f.Blocks) > 0 && len(f.Blocks) <= 6:
+						// a small helper given the requested version: its own string parameter compared with elements
+						hp := map[ssa.Value]bool{}
+						for i, a := range x.Call.Args {
+							if fnParams[a] && i < len(f.Params) {
+								hp[f.Params[i]] = true
+							}
+						}
+						if len(hp) > 0 {
+							found := hasParamEq(f, hp)
+							for _, c := range callInstrs(f) {
+								if cf, _ := calleeOf(c.Common()); cf != nil && fnPkgPath(cf) == "slices" && (genericName(cf) == "Contains" || genericName(cf) == "Index") && len(c.Common().Args) == 2 && hp[c.Common().Args[1]] {
+									found = true
+								}
+							}
+							if found {
+								eqs = append(eqs, x)
+							}
+						}
 					}
 				}
 			}
@@ -306,7 +387,14 @@ func c18ExactFirst(w *World, r *Report) {
 			for _, in := range b.Instrs {
 				if ia, ok := in.(*ssa.IndexAddr); ok {
 					if _, isSlice := ia.X.Type().Underlying().(*types.Slice); isSlice && !phiCountsUp(ia.Index) {
-						if _, isC := ia.Index.(*ssa.Const); !isC {
+						_, isC := ia.Index.(*ssa.Const)
+						fromSearch := false // the index found by a front-to-back library search
+						if c, ok := ia.Index.(*ssa.Call); ok {
+							if f, _ := calleeOf(c.Common()); f != nil && fnPkgPath(f) == "slices" && strings.HasPrefix(genericName(f), "Index") {
+								fromSearch = true
+							}
+						}
+						if !isC && !fromSearch {
 							okUp = false
 						}
 					}
